@@ -217,3 +217,25 @@ package verifspec
 //@   oncall jsMappingCallback: assert true
 //@   oncall Write: use wfContents(a0, jsSource) if !minify && f.jsMappingCallback == nil
 //@   oncall Write: assert (minify || f.jsMappingCallback != nil) ==> samearr(a0, result.Code) && len(a0) == len(result.Code)
+
+// ---- trimming functions of package bytes (what any caller may rely on: the result is a piece of the argument)
+//@ extern bytes.TrimRight
+//@   param s cutset
+//@   assigns nothing
+//@   ensures prefixof(result, s)
+//@ extern bytes.TrimSuffix
+//@   param s suffix
+//@   assigns nothing
+//@   ensures prefixof(result, s)
+//@ extern bytes.TrimLeft
+//@   param s cutset
+//@   assigns nothing
+//@   ensures suffixof(result, s)
+//@ extern bytes.TrimPrefix
+//@   param s prefix
+//@   assigns nothing
+//@   ensures suffixof(result, s)
+//@ extern bytes.TrimSpace
+//@   param s
+//@   assigns nothing
+//@   ensures len(result) <= len(s)
